@@ -862,6 +862,18 @@ func Apply(ctx context.Context, repo gitstore.Storer, signRSLEntry bool) error {
 		return fmt.Errorf("staged policy is invalid: %w", err)
 	}
 
+	if entryFound {
+		// The staged state must be a valid successor of the applied policy,
+		// exactly as verification will demand of it later
+		currentState, err := LoadState(ctx, repo, policyEntry)
+		if err != nil {
+			return fmt.Errorf("failed to load applied policy: %w", err)
+		}
+		if err := currentState.VerifyNewState(ctx, state); err != nil {
+			return fmt.Errorf("staged policy is not a valid successor of the applied policy: %w", err)
+		}
+	}
+
 	// Update the reference for the base to point to the new commit
 	if err := repo.SetReference(PolicyRef, policyStagingTip); err != nil {
 		return fmt.Errorf("failed to set new policy reference: %w", err)
